@@ -101,10 +101,13 @@ def parse_server_hello(datagram):
         return None
 
 
-def build_server_hello(template, root_der, server_der, salt, token, sign_with=None, signature=None, payload_override=None):
+_UNSET = object()
+
+
+def build_server_hello(template, root_der, server_der, salt, token, sign_with=None, signature=_UNSET, payload_override=None):
     """forge a SERVER_HELLO datagram: header copied from a genuine one (length fixed up), CRC recomputed"""
     payload = payload_override if payload_override is not None else ser(server_der) + ser(salt) + ser(token)
-    if signature is None:
+    if signature is _UNSET:
         signature = sign_with.sign(payload)
     msg = struct.pack(">H", HandshakeServerHelloMessage.type_id) + ser(root_der) + ser(payload) + ser(signature)
     body = template[20:22] + msg
@@ -360,6 +363,20 @@ def forgeries():
     sh("genuine payload, empty signature", lambda g: build_server_hello(g, this(g)[0], None, None, None, signature=b"", payload_override=this(g)[1]))
     sh("genuine payload, signature with one bit flipped", lambda g: build_server_hello(g, this(g)[0], None, None, None, signature=bytes([this(g)[2][0]]) + bytes([this(g)[2][1] ^ 0]) + this(g)[2][2:-1] + bytes([this(g)[2][-1] ^ 1]), payload_override=this(g)[1]))
     sh("genuine payload + trailing bytes inside the signed field", lambda g: build_server_hello(g, this(g)[0], None, None, None, signature=this(g)[2], payload_override=this(g)[1] + b"\x00"))
+    # the signature FIELD is decoded generically: every non-bytes value an attacker can put there, with an attacker-chosen
+    # payload (its own ephemeral key) and with the genuine payload
+    for sl, sv in (("empty list", []), ("empty tuple", ()), ("null", None), ("int 0", 0), ("empty string", ""), ("list of empty bytes", [b""]),
+                   ("empty map", {}), ("empty set", set()), ("list holding null", [None]), ("True", True), ("nested empty list", [[]]), ("float", 1.5)):
+        def fn4(g, sv=sv):
+            t = this(g)
+            return build_server_hello(g, t[0], att_eph_der, b"A" * 16, t[5], signature=sv)
+        sh("attacker key/salt, signature field = %s" % sl, fn4)
+
+        def fn5(g, sv=sv):
+            t = this(g)
+            return build_server_hello(g, t[0], None, None, None, signature=sv, payload_override=t[1])
+        sh("genuine payload, signature field = %s" % sl, fn5)
+    sh("genuine payload, signature field = list holding the genuine signature", lambda g: build_server_hello(g, this(g)[0], None, None, None, signature=[this(g)[2]], payload_override=this(g)[1]))
     sh("entire hello of another session of the same server (replay)", lambda g: g[:20] + other["SH"][20:22] + other["SH"][22:-4] if False else crc_fix(g[:13] + other["SH"][13:15] + g[15:20] + other["SH"][20:]))
     sh("empty body", lambda g: crc_fix(g[:13] + struct.pack(">H", 2) + g[15:22] + b"\x00\x00\x00\x00"))
     # client hello with the attacker's key (server must then simply talk to the attacker's key: the CLIENT cannot derive the same key)
